@@ -1,5 +1,7 @@
 import Driver.Pure
 import Driver.Read
+import Driver.Utf8
+import Driver.Nego
 
 open Drv
 
@@ -8,6 +10,8 @@ def dispatch (line : String) : Res :=
   | "mask" :: args => runMask args
   | "win" :: args => runWin args
   | "read" :: args => runRead args
+  | "utf8" :: args => runUtf8 args
+  | "nego" :: args => runNego args
   | _ => bad "unknown-suite"
 
 partial def loop (hin hout : IO.FS.Stream) : IO Unit := do
